@@ -358,7 +358,7 @@ REQUIRED_OUTCOMES = ("form-data:read:1", "mixed:chunks:1", "parts", "raise", "b6
 def bounds(tier):
     return {"roundtrip": "1 part of 0..4 (quick) / 0..6 symbolic bytes, 2 parts of 0..2 / 0..3, over {CR LF - b x}, boundary 'b', subtypes form-data (boundary scan) and mixed (Content-Length), 1-2 symbolic cuts of the wire, APIs read / read_chunk(5..7) / release",
             "termination": "'--b CRLF' + 3..5 (quick) / 3..7 symbolic bytes over {CR LF - b : x}; raw 5 / 7 symbolic bytes; loop budget 6000 callbacks",
-            "base64": "concrete contents of 5, 7 (and 10) bytes, every slicing into up to 4 (5) writes"}
+            "formdata": "FormData(default_to_multipart) with field name and filename from 8 strings (ASCII, Latin-1, non-BMP-free Unicode, space, quote, semicolon, backslash, percent), quote_fields on/off, charset None/utf-8, bytes or text content, one cut: size == bytes written; names come back verbatim or percent-decoded", "base64": "concrete contents of 5, 7 (and 10) bytes, every slicing into up to 4 (5) writes"}
 
 
 def setup_models():
